@@ -1,7 +1,7 @@
 SPECIFICATION Spec
 CONSTANTS
   Ctors <- NameCtor
-  NameTokens <- TokT
+  NameTokens <- TokM
   MaxName = 4
   FixedNames <- NoneSet
   FmtTokens <- FTokQ
